@@ -18,7 +18,7 @@
     flat_cache_inv_initial flat_cache_inv_preserved flat_cache_inv flat_cache_entry_bindings_only
     flatten_cache_irrelevant_full flatten_cached_is_xml_flatten flat_cache_stale_entry_violates_inv
     flat_cache_typed_key_collision_witness ser_cache_irrelevant_full lite_flatten_is_xml_flatten
-    render_full_cache_irrelevant render_full_extends_render
+    render_full_cache_irrelevant render_full_extends_render strip_only_whitespace_full_partial
 -/
 import Genshi.Lemmas.Output
 import Genshi.Lemmas.OutputFlatten
@@ -592,6 +592,35 @@ theorem strip_only_whitespace_global_partial (m : Method) (cache dropd : Bool) (
   simpa using this
 
 example : wsNorm ['<', 'p', '>', ' ', '\n', '\n', 'x'] = wsNorm ['<', 'p', '>', '\n', 'x'] := by decide
+
+/-- The same for the total model `renderFull`, on the part of its domain where the lite-domain
+    model `render` answers (there the two agree: `render_full_extends_render`).
+    FULL STATEMENT (not proved): the equation for every stream — it needs the whitespace lemmas
+    (`renderWith_rel`, `wsMerge_tailOut`) re-proved against `Xml.cflatten`, see notes/C09.md. -/
+theorem strip_only_whitespace_full_partial (m : Method) (cache dropd : Bool) (dt : Option DocTypeT)
+    (s : Stream) (hag : NoescapeAgreeS m s)
+    (hok : ∀ strip, ∀ e ∈ preFlat m strip s, tagOk e = true)
+    (hdom : (render m { strip := false, cache := cache, doctype := dt, dropXmlDecl := dropd } s).isSome) :
+    wsNorm (renderFull m { strip := true, cache := cache, doctype := dt, dropXmlDecl := dropd } s) =
+    wsNorm (renderFull m { strip := false, cache := cache, doctype := dt, dropXmlDecl := dropd } s) := by
+  have hrel := strip_only_whitespace_global_partial m cache dropd dt s hag
+  cases h1 : render m { strip := true, cache := cache, doctype := dt, dropXmlDecl := dropd } s with
+  | none =>
+    cases h2 : render m { strip := false, cache := cache, doctype := dt, dropXmlDecl := dropd } s with
+    | none => rw [h2] at hdom; cases hdom
+    | some b => rw [h1, h2] at hrel; simp [OptRel] at hrel
+  | some a =>
+    cases h2 : render m { strip := false, cache := cache, doctype := dt, dropXmlDecl := dropd } s with
+    | none => rw [h2] at hdom; cases hdom
+    | some b =>
+      rw [h1, h2] at hrel
+      rw [render_full_extends_render m _ s a (hok true) h1, render_full_extends_render m _ s b (hok false) h2]
+      simpa [OptRel] using hrel
+
+example : wsNorm (renderFull .xhtml { strip := true, cache := true }
+      [.start ⟨xhtmlNs, ['p']⟩ [], .text [' ', '\n', '\n', 'x'] false, .end_ ⟨xhtmlNs, ['p']⟩]) =
+    wsNorm (renderFull .xhtml { strip := false, cache := true }
+      [.start ⟨xhtmlNs, ['p']⟩ [], .text [' ', '\n', '\n', 'x'] false, .end_ ⟨xhtmlNs, ['p']⟩]) := by decide
 
 theorem wsNorm_deletes_only_ws (x : Str) :
     (wsNorm x).Sublist x ∧ (wsNorm x).filter (fun c => !wsChar c) = x.filter (fun c => !wsChar c) :=
